@@ -78,6 +78,11 @@ func vocab(repo string) map[string][]string {
 								s, _ := strconv.Unquote(bl.Value)
 								names = append(names, s)
 							}
+							if id, ok := x.Args[0].(*ast.Ident); ok {
+								if v, ok := consts[id.Name]; ok {
+									names = append(names, v)
+								}
+							}
 						}
 					case *ast.CaseClause:
 						for _, e := range x.List {
@@ -300,6 +305,9 @@ func main() {
 			kws = voc["on"]
 		}
 		rep.Set("vocab_"+d, len(kws))
+		if _, ok := voc[d]; !ok && d != "startup" && d != "shutdown" {
+			rep.Broken("no keyword vocabulary found for directive %q (RegisterPlugin call not recognised)", d)
+		}
 		// no block
 		for chunk := 0; chunk < len(argLists); chunk += 64 {
 			item++
